@@ -209,6 +209,61 @@ def local_cells():
     return out
 
 
+# ---- the same kind of named type declared twice: what is checked for one declaration says nothing about the next ---------------
+NAMED_KINDS = {
+    "range": "typedef int[0, %s] {N};", "array": "typedef int {N}[%s];", "record-field-size": "typedef struct {{ int f[%s]; }} {N};",
+    "record-field-range": "typedef struct {{ int[0, %s] f; }} {N};", "scalar-set": "typedef scalar[%s] {N};",
+    "array-of-range": "typedef int[0, %s] {N}[2];",
+}
+NAMED_USES = {"variable": "{N} {q};", "array-of": "{N} {q}[2];", "field": "struct {{ {N} g; }} {q};"}
+NAMED_EXPRS = [("literal", "3", False), ("const", "k + 1", False), ("fn-const", "fk2()", False), ("var", "v", True), ("var-array", "va[0] + 1", True),
+               ("fn-var", "fv()", True), ("fn-var-chain3", "fv3()", True), ("meta-var", "mv + 1", True)]
+
+
+def named_layouts(first, second):
+    """scope pairs: where the first (well-formed, used) and the second declaration stand"""
+    t = lambda name, decl: X.template(name, decl=decl, locations=[X.location("id0" + name, "L0")], init="id0" + name)
+    return {
+        "global/template": (X.nta(GDECL + first, [t("T", second)], "system T;"), True),
+        "global/global-function": (X.nta(GDECL + first + "\nvoid g() { %s }" % second, [t("T", "")], "system T;"), False),
+        "global/template-function": (X.nta(GDECL + first, [t("T", "void g() { %s }" % second)], "system T;"), False),
+        "global/nested-block": (X.nta(GDECL + first + "\nvoid g() { { { %s } } }" % second, [t("T", "")], "system T;"), False),
+        "template/other-template": (X.nta(GDECL, [t("T", first), t("U", second)], "system T, U;"), True),
+        "template/its-function": (X.nta(GDECL, [t("T", first + "\nvoid g() { %s }" % second)], "system T;"), False),
+        "function/other-function": (X.nta(GDECL + "void g1() { %s }\nvoid g2() { %s }" % (first, second), [t("T", "")], "system T;"), False),
+        "block/sibling-block": (X.nta(GDECL + "void g() { { %s } { %s } }" % (first, second), [t("T", "")], "system T;"), False),
+    }
+
+
+def named_cells():
+    out = []
+    for kid, ktpl in NAMED_KINDS.items():
+        for uid, use in NAMED_USES.items():
+            for eid, e, mut in NAMED_EXPRS:
+                for names in ("same-name", "different-names"):
+                    n2 = "N" if names == "same-name" else "M"
+                    for order in ("ill-formed-second", "ill-formed-first"):
+                        for fkind in ((kid, "plain") if order == "ill-formed-second" else (kid,)):
+                            wf = ("typedef int {N};" if fkind == "plain" else ktpl % "3")
+                            a = wf.format(N="N") + " " + use.format(N="N", q="q0")
+                            b = (ktpl % e).format(N=n2) + " " + use.format(N=n2, q="q1")
+                            first, second = (a, b) if order == "ill-formed-second" else (b.replace("q1", "q0"), a.replace("q0", "q1"))
+                            if names == "different-names" and order == "ill-formed-first":
+                                first, second = first.replace("{M}", "M"), second
+                            lays = named_layouts(first, second)
+                            if names == "different-names":
+                                both = first + " " + second
+                                lays = {"global-same-scope": (X.nta(GDECL + both, [tpl()], SYS), True),
+                                        "template-same-scope": (X.nta(GDECL, [tpl(decl=both)], SYS), True),
+                                        "function-same-scope": (X.nta(GDECL + "void g() { %s }" % both, [tpl()], SYS), False)}
+                            for lid, (doc, scalar_ok) in lays.items():
+                                if kid == "scalar-set" and not scalar_ok:
+                                    continue
+                                key = "named-twice:%s:%s:%s:%s:%s:first-is-%s:%s" % (lid, kid, uid, names, order, fkind, eid)
+                                out.append((key, "mutable" if mut else "const", e, doc))
+    return out
+
+
 def run_shard(cid):
     part = engine.Part()
     w = engine.worker("fast")
@@ -216,6 +271,9 @@ def run_shard(cid):
         cells = [(a, b, None, c) for a, b, c in free_param_docs()]
     elif cid == "function-local-chains":
         cells = local_cells()
+    elif cid.startswith("named-twice/"):
+        i, n = map(int, cid.split("/")[1:])
+        cells = named_cells()[i::n]
     else:
         cells = [("%s:%s" % (cid, eid), "mutable" if mut else "const", e, CONTEXTS[cid](e)) for eid, e, mut in EXPRS]
     res = X.run_docs(w, [c[3] for c in cells], want=["noinv"], batch=50)
@@ -256,7 +314,7 @@ def main():
                         "sizes with bound twins, directly and through chains of 1-3 partial instantiations; plus %d function-local contexts x %d chains that stay inside one function body (parameters, local "
                         "variables, local constants initialised from run-time values, chains of those), in global and template-local "
                         "functions." % (len(CONTEXTS), len(EXPRS), len(LOCAL_CONTEXTS), len(LOCAL_CHAINS)))
-    for res in engine.pmap(run_shard, list(CONTEXTS) + ["free-params", "function-local-chains"]):
+    for res in engine.pmap(run_shard, list(CONTEXTS) + ["free-params", "function-local-chains"] + ["named-twice/%d/8" % i for i in range(8)]):
         rep.merge(res)
     rep.assumptions = ["every declared type is used by a variable (the statement speaks of used types)",
                        "function-local initialisers are not compile-time contexts themselves; sizes and bounds of function-local declarations are"]
